@@ -50,6 +50,8 @@ pub struct ModelState {
     pub resets: u32,
     pub config_writes: Vec<(usize, Vec<u8>)>,
     pub guest_page_size: Option<u32>,
+    /// PCI-like transports cannot disable a queue: queue_unset is a no-op.
+    pub unset_is_noop: bool,
 }
 
 impl ModelState {
@@ -74,6 +76,7 @@ impl ModelState {
             resets: 0,
             config_writes: vec![],
             guest_page_size: None,
+            unset_is_noop: false,
         }))
     }
     fn reset(&mut self) {
@@ -81,6 +84,9 @@ impl ModelState {
         self.driver_features = None;
         self.pending_notify.clear();
         self.resets += 1;
+    }
+    pub fn sched_pub(&mut self, a: CfgAccess) {
+        self.sched(a)
     }
     fn sched(&mut self, a: CfgAccess) {
         if let Some(mut s) = self.scheduler.take() {
@@ -162,7 +168,11 @@ impl Transport for ModelTransport {
         evlog::log(Ev::QueueSet { q: queue, size, desc: descriptors, driver: driver_area, device: device_area });
     }
     fn queue_unset(&mut self, queue: u16) {
-        self.st.borrow_mut().queues.remove(&queue);
+        let mut s = self.st.borrow_mut();
+        if s.unset_is_noop {
+            return;
+        }
+        s.queues.remove(&queue);
         evlog::log(Ev::QueueUnset { q: queue });
     }
     fn queue_used(&mut self, queue: u16) -> bool {
